@@ -22,8 +22,8 @@ pub unsafe fn patch_ast(compilation_state: &mut CompilationState) {
 
 struct TypeRefPatcher<'a> {
     type_ref_patches: Vec<PatchKind>,
-    /// The scoped identifier of the field or parameter whose type is currently being resolved (if any).
-    /// Lints about that type belong to the member, so `allow` attributes on the member itself apply to them.
+    /// The scoped identifier of the field, parameter or type alias whose type is currently being resolved (if any).
+    /// Lints about that type belong to that element, so `allow` attributes on the element itself apply to them.
     member_scope: Option<String>,
     diagnostics: &'a mut Diagnostics,
 }
@@ -56,6 +56,7 @@ impl TypeRefPatcher<'_> {
                     .map(PatchKind::EnumUnderlyingType),
                 Node::TypeAlias(type_alias_ptr) => {
                     let type_ref = &type_alias_ptr.borrow().underlying;
+                    self.member_scope = Some(type_alias_ptr.borrow().parser_scoped_identifier());
                     self.resolve_definition(type_ref, ast)
                         .map(PatchKind::TypeAliasUnderlyingType)
                 }
